@@ -101,6 +101,33 @@ theorem leb_encode_length (v : Nat) (w : Int) :
     have := i64Loop_bounds _ 0 0 _ _ r
     omega
 
+/-- The encoders are injective on each type's range: two values with the same encoding are the same value
+(corollary of `leb_roundtrip`: the decoder is a left inverse). So a module re-encoded from its decoded
+form cannot merge two different indices, constants or block types. -/
+theorem leb_encode_injective :
+    (∀ v w : Nat, v < 2 ^ 64 → w < 2 ^ 64 → encU v = encU w → v = w) ∧
+    (∀ v w : Int, -(2 ^ 63 : Int) ≤ v → v < 2 ^ 63 → -(2 ^ 63 : Int) ≤ w → w < 2 ^ 63 → encS v = encS w → v = w) := by
+  refine ⟨?_, ?_⟩
+  · intro v w hv hw h
+    have r1 := u64_roundtrip v hv []
+    have r2 := u64_roundtrip w hw []
+    rw [h, r2] at r1
+    injection r1 with r1
+    injection r1 with r1 _
+    exact r1.symm
+  · intro v w hv1 hv2 hw1 hw2 h
+    have r1 := i64_roundtrip v hv1 hv2 []
+    have r2 := i64_roundtrip w hw1 hw2 []
+    rw [h, r2] at r1
+    injection r1 with r1
+    injection r1 with r1 _
+    exact r1.symm
+
+/-- Use of the theorem on concrete in-range values (the hypotheses are satisfiable). -/
+example : encU 127 ≠ encU 128 ∧ encS (-1) ≠ encS 63 :=
+  ⟨fun h => absurd (leb_encode_injective.1 127 128 (by decide) (by decide) h) (by decide),
+   fun h => absurd (leb_encode_injective.2 (-1) 63 (by decide) (by decide) (by decide) (by decide) h) (by decide)⟩
+
 /-- The 5th byte of an unsigned 32-bit value may only carry 4 bits: with four continuation bytes in
 front, a terminating 5th byte is accepted iff it is < 16 (and then all 32 bits are significant). -/
 theorem leb_u32_canonical_range (b0 b1 b2 b3 b4 : Byte) (rest : List Byte)
